@@ -14,6 +14,7 @@ if ROOT not in sys.path:
 import lomond                                     # noqa: E402
 from lomond import WebSocket, events, constants   # noqa: E402
 from lomond.session import WebsocketSession       # noqa: E402
+from lomond.selectors import SelectorBase         # noqa: E402
 import lomond.session as _session_mod             # noqa: E402
 import lomond.events as _events_mod               # noqa: E402
 
@@ -123,12 +124,14 @@ class FakeSocket:
         return 9
 
 
-class FakeSelector:
-    """readable whenever the fake socket has something to deliver (data, EOF or error); a wait that
-    would block advances the virtual clock by the timeout"""
+class FakeSelector(SelectorBase):
+    """the REAL SelectorBase.wait with a scripted wait_readable: readable whenever the fake socket's
+    kernel side has something to deliver (data, EOF or error); a wait that would block advances the
+    virtual clock by the timeout"""
     instances = []
 
     def __init__(self, sock):
+        SelectorBase.__init__(self, sock)
         self.sock = sock
         self.closed = False
         self.waits = 0
@@ -137,16 +140,10 @@ class FakeSelector:
     clock = None
     idle_limit = 50
 
-    def wait(self, max_bytes, timeout=0.0):
-        self.waits += 1
-        s = self.sock
-        if hasattr(s, 'pending') and s.pending():
-            return True, s.pending()
-        return self.wait_readable(timeout), max_bytes
-
     def wait_readable(self, timeout=0.0):
         s = self.sock
-        if s.reads or s.tls_buf:
+        self.waits += 1
+        if s.reads:
             nxt = s.reads[0] if s.reads else None
             if isinstance(nxt, tuple) and nxt[0] == 'idle':
                 # ('idle', seconds): nothing readable for that long
